@@ -294,6 +294,9 @@ class C08(Prop):
                 (["--stop-timeout=200ms"], {"k": "signal", "sig": "Interrupt"}, [2], [], False, False, "exit_after=20000,on_term=ignore"),
                 (["--stop-timeout=1"], {"k": "signal", "sig": "Terminate"}, [15], [], False, False, "exit_after=20000,on_term=ignore"),   # unit-less = seconds
                 (["--stdin-quit"], {"k": "eof"}, [], [], True, True, "exit_after=20000,on_term=exit:0"),
+                # signal mode: --signal is what a change sends; the quit still sends the stop signal
+                (["--signal=HUP", "--stop-timeout=300ms"], {"k": "signal", "sig": "Interrupt"}, [2], [], False, False, "exit_after=20000,on_hup=ignore,on_term=exit:0"),
+                (["--signal=USR1", "--stop-signal=HUP", "--stop-timeout=300ms"], {"k": "signal", "sig": "Terminate"}, [15], [], False, False, "exit_after=20000,on_usr1=ignore,on_hup=exit:0"),
                 (["--map-signal=TERM:HUP"], {"k": "signal", "sig": "Terminate"}, [15], [15], False, False, "exit_after=20000,on_hup=ignore"),
                 (["--map-signal=INT:USR1"], {"k": "signal", "sig": "Interrupt"}, [2], [2], False, False, "exit_after=20000,on_usr1=ignore"),
                 ([], {"k": "signal", "sig": "Hangup"}, [1], [], False, False, "exit_after=20000,on_hup=ignore"),
